@@ -12,13 +12,13 @@ func init() {
 		Level: "exploration",
 		Rule: "random histories over six foreign-key wirings (fk index nullable / non-nullable / cascade-delete; fk constraint nullable or not with cascade none / delete / create-update; self-referencing store) " +
 			"with ids containing quotes, backslash escapes, newlines, spaces and filter keywords; model predicts accept / reject class and the exact cascade closure; structural monitor compares back-reference buckets, " +
-			"dangling references and the surviving id set after every transaction; cascade closures include reference cycles and self references (boss chains that lead back to the deleted employee): every member goes, once; Part (b): a store whose fk index points at itself (self references, cycles; restrict, nullable, and in every third case cascade-delete on both fks: exactly the transitive referrers computed from the raw pre-state are gone) plus a second store referencing it, with ids of 32766-32768 bytes, judged without a model after every operation: an error changed nothing; every reference names an existing entity listed back by its target; every back-reference entry names an existing referrer. Part (c): two sibling child stores that each declare an fk constraint of the same name to the same target store: after every operation (incl. deletes of the target) no stored reference names a missing entity. non-trivial = distinct (op kind, store, outcome, population class, configuration) tuples",
+			"dangling references and the surviving id set after every transaction; cascade closures include reference cycles and self references (boss chains that lead back to the deleted employee): every member goes, once; Part (b): a store whose fk index points at itself (self references, cycles; restrict, nullable, and in every third case cascade-delete on both fks: exactly the transitive referrers computed from the raw pre-state are gone) plus a second store referencing it, with ids of 32766-32768 bytes, judged without a model after every operation: an error changed nothing; every reference names an existing entity listed back by its target; every back-reference entry names an existing referrer. Part (c): two sibling child stores that each declare an fk constraint of the same name to the same target store: after every operation (incl. deletes of the target) no stored reference names a missing entity. non-trivial = distinct (op kind, store, outcome, population class, configuration) tuples Part (d): a non-nullable foreign key and a non-nullable unique index of a child store: the child part is created together with the entity or over an entity that exists in the parent store already, with an existing target, a dangling, an empty or a null reference: only the existing target is accepted, refused creates leave no child data, the target's back-reference set equals the committed references.",
 		Assumptions: []string{"CascadeCreateUpdate declares no enforcement on delete: dangling boss references there are predicted, not reported"},
 		Plan: func(tier core.Tier, seed int64) int {
 			if tier == core.Thorough {
-				return 96000 + c04SelfCases*20 + 24*10
+				return 96000 + c04SelfCases*20 + 24*10 + c04ChildCases*10
 			}
-			return 720 + c04SelfCases + 24
+			return 720 + c04SelfCases + 24 + c04ChildCases
 		},
 		Run: func(c *core.Ctx, idx int) {
 			nHist := 720
@@ -28,6 +28,14 @@ func init() {
 			nSelf := c04SelfCases
 			if c.Tier == core.Thorough {
 				nSelf *= 20
+			}
+			nSib := 24
+			if c.Tier == core.Thorough {
+				nSib *= 10
+			}
+			if idx >= nHist+nSelf+nSib {
+				c04Child(c, idx-nHist-nSelf-nSib)
+				return
 			}
 			if idx >= nHist+nSelf {
 				siblingScenario(c, idx-nHist-nSelf, "C04") // both sibling child stores carry an fk constraint of the same name to one target
@@ -72,10 +80,12 @@ func init() {
 		Promises: func(core.Tier) map[string][]string {
 			return map[string][]string{"op_outcome": {"create:ok", "create:notfound", "update:notfound", "delete:ok", "delete:refexists", "delete:notfound"},
 				"self_fk":       {"create-node:ok", "create-node:error", "update-node:ok", "update-node:error", "delete-node:ok", "delete-node:error", "create-pin:ok", "create-pin:error", "delete-pin:ok"},
-				"self_fk_shape": {"self", "self+edge-size id"}}
+				"self_fk_shape": {"self", "self+edge-size id"},
+				"child_fk": {"non-nullable fk index: null reference, over an entity that exists in the parent store", "cascade-delete fk index: null reference, over an entity that exists in the parent store", "non-nullable fk constraint: null reference, over an entity that exists in the parent store",
+					"non-nullable fk index: existing target, over an entity that exists in the parent store", "non-nullable fk constraint: dangling reference, together with the entity"}}
 		},
 		MinCounters: func(core.Tier) map[string]int64 {
-			return map[string]int64{"cascade_deletes": 20, "cascades_of_3_or_more": 100, "self_fk_states_checked": 1000, "cascade_deletes_over_a_reference_cycle": 20, "self_fk_cascade_deletes_over_a_cycle": 8}
+			return map[string]int64{"child_store_fk_creates": 200, "cascade_deletes": 20, "cascades_of_3_or_more": 100, "self_fk_states_checked": 1000, "cascade_deletes_over_a_reference_cycle": 20, "self_fk_cascade_deletes_over_a_cycle": 8}
 		},
 	})
 }
